@@ -66,6 +66,8 @@ GOAL_SPLITS = [
     # duplicates inside ONE file (round 20: the duplicate test that only looked at the files combined before)
     [[[">=", ["f", "o1"], "2"], ["p", "o1"], [">=", ["f", "o1"], "2"], ["p", "o1"]], [["=", ["g"], "0.5"], ["r"], ["=", ["g"], "0.5"]],
      [[">=", ["f", "o1"], "2"], ["=", ["g"], "0.5"], ["=", ["g"], "0.5"]], [["r"], ["r"]]],
+    # round 22: goals of one predicate over the same SET of objects in another order / multiplicity (a duplicate test keyed on the set)
+    [[["q", "o1", "o2"], ["q", "o1", "o1"]], [["q", "o2", "o1"], ["q", "o1", "o2"]], [["q", "o2", "o2"], ["q", "o2", "o1"]], [["q", "o1", "o1"]]],
 ]
 
 
